@@ -53,6 +53,10 @@ func mkSlice(off, ln, cp, pat, base int) ([]int, *backing) {
 			arr[i] = base + (i % 2)
 		case 2:
 			arr[i] = base + 100 - i
+		case 4:
+			arr[i] = base + i/2
+		case 5:
+			arr[i] = base + (i*i)%3
 		default:
 			arr[i] = base + (i*7)%5
 		}
@@ -483,7 +487,7 @@ func TestVerifReplay(t *testing.T) {
 					for sp2 := 0; sp2 <= 1; sp2++ {
 						for n := -1; n <= 5; n++ {
 							for cb := 0; cb < 4; cb++ {
-								for pat := 0; pat < 4; pat++ {
+								for pat := 0; pat < 6; pat++ {
 									cc := rcase{Func: c.Func, Len1: l1, Cap1: l1 + sp1, Off1: o1, Len2: l2, Cap2: l2 + sp2, Off2: 0, N: n, Cb: cb, Pat: pat}
 									tried++
 									if msg := checkCase(cc); msg != "" {
